@@ -679,6 +679,7 @@ def _vector_hooks():
         "method:insert": lambda ev, o, a: o.insert(a[0]) if isinstance(o, (SetObj, MapObj)) and len(a) == 1 else _insert(o, a),
         "method:find": lambda ev, o, a: o.find(a[0]) if isinstance(o, (SetObj, MapObj)) else (_ for _ in ()).throw(Broken("find() on an unmodelled container")),
         "method:count": lambda ev, o, a: (1 if o.find(a[0]).pos < len(o.items) else 0) if isinstance(o, SetObj) else sum(1 for x in o.items if x == a[0]),
+        "method:emplace": lambda ev, o, a: _insert(o, a) if isinstance(o, Vec) and not isinstance(o, (SetObj, MapObj)) and len(a) == 2 and isinstance(a[0], It) else (_ for _ in ()).throw(Broken("emplace on an unmodelled container / argument list")),
         "method:erase": lambda ev, o, a: _erase(o, a),
         "method:operator*": lambda ev, o, a: o.deref() if isinstance(o, It) else (o.load() if isinstance(o, Ptr) else o),
         "method:operator->": lambda ev, o, a: o.deref() if isinstance(o, It) else o,
